@@ -95,8 +95,8 @@ fn net_lines(buf: &[u8], port_off: u16, dropped: bool, t: u64, out: &mut Vec<Val
     for s in &m.subs {
         let line = match s {
             Sub::Data { writer, sn, payload, .. } if user_eid(writer) => json!({"k":"DATA","sn":sn,"len":payload.as_ref().map(|p| p.len()).unwrap_or(0)}),
-            Sub::DataFrag { writer, sn, frag_start, frags_in_sub, sample_size, .. } if user_eid(writer) => {
-                json!({"k":"FRAG","sn":sn,"f":frag_start,"n":frags_in_sub,"size":sample_size})
+            Sub::DataFrag { writer, sn, frag_start, frags_in_sub, sample_size, frag_size, .. } if user_eid(writer) => {
+                json!({"k":"FRAG","sn":sn,"f":frag_start,"n":frags_in_sub,"size":sample_size,"fsz":frag_size})
             }
             Sub::Heartbeat { writer, first, last, .. } if user_eid(writer) => json!({"k":"HB","first":first,"last":last}),
             Sub::Gap { writer, start, list, .. } if user_eid(writer) => json!({"k":"GAP","start":start,"base":list.base,"set":list.members()}),
